@@ -556,6 +556,18 @@ def mon_c06(hs, prev, op, ok, trace, cur, known):
                         % (s[2], s[3], q[2], q[3], A, T))
     if prev is None or not ok:
         return None
+    # a transaction that executed one of the hub's pricing messages (each of them starts with the
+    # slashing check, BondRewards included) while a loss was pending must leave the booked stake equal
+    # to the delegated amount exactly: the check sets it to the surviving amount, and whatever the
+    # message then delegates / undelegates moves both sides alike
+    if wired(prev, hs) and in_envelope(prev) and s is not None:
+        ps_, pdl = stored(prev), delegs(prev)
+        tl_ = trace_lines(trace)
+        if ps_ is not None and len(pdl) > 0 and ps_[2] + ps_[3] > 0 and sum(pdl.values()) < ps_[2] + ps_[3] \
+                and any(x[1] == 'wasm' and x[3] == 'hub' and x[4] in HUB_SYNC_TAGS for x in tl_):
+            if s[2] + s[3] != sum(dl.values()):
+                return ('violation', 'a slashing loss was pending (booked %d, delegated %d); after %r the booked stake is %d but %d is delegated'
+                        % (ps_[2] + ps_[3], sum(pdl.values()), op, s[2] + s[3], sum(dl.values())))
     # explicit CheckSlashing stores exactly what the query computed before it
     if t[0] == 'hub' and t[2] == 'checkslashing' and wired(prev, hs) and not paused(prev):
         pq = qstate(prev)
